@@ -162,15 +162,16 @@ def main(argv=None):
         print("KNOWN-FINDING: property=%s %s: %s (%d matching case(s) this run)" % (prop, fid, known[fid]["what"], len(vs)))
 
     rc = 0
+    unreproducible = []
     for v in new[:MAX_REPORT]:
         # a violation must reproduce from its own replay case before it is believed
         if hasattr(mod, "replay") and v.get("case") is not None and not v.get("no_recheck"):
             again = mod.replay(ctx, v["case"])
             sigs = [canon_json(a.get("sig", {})) for a in again]
             if canon_json(v.get("sig", {})) not in sigs:
-                print("HARNESS-NONDETERMINISM property=%s: violation did not reproduce from its replay case: %s"
-                      % (prop, v.get("msg", "")[:500]))
-                return 2
+                # not believed: reported only as a harness problem, and only if nothing else reproduces
+                unreproducible.append(v.get("msg", "")[:300])
+                continue
         path = write_replay(prop, v)
         print("VIOLATION property=%s replay=%s" % (prop, path))
         print("  " + v.get("msg", "").replace("\n", "\n  ")[:3000])
@@ -183,6 +184,10 @@ def main(argv=None):
         print("violations by kind: %s" % canon_json(kinds))
     if len(new) > MAX_REPORT:
         print("... %d further distinct violations not written out" % (len(new) - MAX_REPORT))
+    if unreproducible and rc == 0:
+        print("HARNESS-NONDETERMINISM property=%s: %d violation(s) did not reproduce from their replay case, e.g. %s"
+              % (prop, len(unreproducible), unreproducible[0]))
+        return 2
     summary = {k: v for k, v in cov.items() if isinstance(v, (int, float, bool, str)) and k != "rule"}
     print("%s tier=%s wall=%.1fs violations=%d known=%d %s" % (prop, ctx.tier, wall, len(new),
                                                               sum(len(v) for v in matched.values()), canon_json(summary)))
